@@ -785,7 +785,7 @@ func jsonProblems(a *model.Claims, doc []byte, extra map[string]bool) []string {
 }
 
 func runC12(c *mon.Ctx) {
-	c.Rule("valid claims-sets of both profiles, a registered profile-2 extension (its integer claim over the whole int64 range) and a registered extension that brings its own software-component type (stock component + one field, codecs left to the JSON library; the field must survive the round trip) and of registered extensions with unusual struct layouts (P2Claims reached through an embedded struct of unexported type; a mixin struct embedded before P2Claims) ; sets with 15..2500 (thorough: ..20000) software components, i.e. JSON documents up to several MB (text claims drawn from non-ASCII / control / quote / HTML / U+2028 strings, negative client ids, P1 with and without explicit profile claim), built directly / by setters / by decoding: (1) EncodeClaimsToJSON -> each of the four dispatching JSON decoders in turn (DecodeClaimsFromJSON, DecodeAndValidateClaimsFromJSON and the deprecated DecodeUnvalidatedJSONClaims / DecodeJSONClaims) gives identical Validate + getter results and type; (2) CBOR -> claims -> JSON -> claims -> CBOR reproduces the CBOR bytes; (3) every returned JSON document is also kept by the monitor and re-checked / re-decoded after six further encodes (a caller encodes several tokens before sending them); (4) the JSON document, parsed generically, has exactly the documented member names of the claims that are set, standard base64 for byte strings, no member for an absent optional claim (incl. null), no duplicate members; also through Evidence.MarshalJSON. distinct_nontrivial = distinct (profile, route, optional-subset, nonce size, component count, text-class) signatures")
+	c.Rule("valid claims-sets of both profiles, a registered profile-2 extension (its integer claim over the whole int64 range) and a registered extension that brings its own software-component type (stock component + one field, codecs left to the JSON library; the field must survive the round trip) and of registered extensions with unusual struct layouts (P2Claims reached through an embedded struct of unexported type; a mixin struct embedded before P2Claims) ; sets with 15..2500 (thorough: ..20000) software components, i.e. JSON documents up to several MB (text claims drawn from non-ASCII / control / quote / HTML / U+2028 strings, negative client ids, P1 with and without explicit profile claim), built directly / by setters / by decoding: (1) EncodeClaimsToJSON -> each of the four dispatching JSON decoders in turn (DecodeClaimsFromJSON, DecodeAndValidateClaimsFromJSON and the deprecated DecodeUnvalidatedJSONClaims / DecodeJSONClaims) gives identical Validate + getter results and type; (2) CBOR -> claims -> JSON -> claims -> CBOR reproduces the CBOR bytes; (3) every returned JSON document is also kept by the monitor and re-checked / re-decoded after six further encodes (a caller encodes several tokens before sending them); (4) the JSON document, parsed generically, has exactly the documented member names of the claims that are set, standard base64 for byte strings, no member for an absent optional claim (incl. null), no duplicate members; also through Evidence.MarshalJSON - on one Evidence: encode, edit the attached claims in place, encode (must show the edit), edit back, encode (must equal the first). distinct_nontrivial = distinct (profile, route, optional-subset, nonce size, component count, text-class) signatures")
 	if err := extprof.Register(extprof.ExtP2Name); err != nil {
 		c.Violation("harness/register", err.Error(), nil)
 		return
@@ -897,7 +897,30 @@ func runC12(c *mon.Ctx) {
 			var doc []byte
 			var err error
 			if i%4 == 0 {
-				doc, err = (&psatoken.Evidence{Claims: x}).MarshalJSON()
+				// through Evidence.MarshalJSON, on ONE Evidence: encode, edit the attached
+				// claims in place (client id), encode again, edit back, encode a third
+				// time (seeded fault C12-u: a JSON cache keyed on the claims pointer)
+				ev := &psatoken.Evidence{Claims: x}
+				cid0, _ := x.GetClientID()
+				first, err1 := ev.MarshalJSON()
+				other := cid0 ^ 0x5a5a
+				_ = x.SetClientID(other)
+				second, err2 := ev.MarshalJSON()
+				_ = x.SetClientID(cid0)
+				doc, err = ev.MarshalJSON()
+				c.Count("evidence-marshaljson-after-in-place-edit")
+				if err1 == nil && err2 == nil && err == nil {
+					if y2, derr := psatoken.DecodeClaimsFromJSON(second); derr != nil {
+						c.Violation("C12/"+profTag+"/evidence-json-after-edit/decode-failed", "Evidence.MarshalJSON after an in-place edit of the attached claims is not decodable: "+derr.Error(), det())
+					} else if got, gerr := y2.GetClientID(); gerr != nil || got != other {
+						d := det()
+						d["first"], d["second"] = string(first), string(second)
+						c.Violation("C12/"+profTag+"/evidence-json-stale-after-edit", fmt.Sprintf("Evidence.MarshalJSON after SetClientID(%d) on the attached claims still encodes client id %d (%v)", other, got, gerr), d)
+					}
+					if !bytes.Equal(first, doc) {
+						c.Violation("C12/"+profTag+"/evidence-json-differs-after-edit-back", "Evidence.MarshalJSON differs after the claims were edited and edited back", det())
+					}
+				}
 			} else {
 				doc, err = psatoken.EncodeClaimsToJSON(x)
 			}
@@ -1216,6 +1239,43 @@ func layoutExtRoundTrips(c *mon.Ctx, g *model.Gen, prop, format string, n int) {
 			if gotExt := extOf(y); fmt.Sprint(gotExt) != fmt.Sprint(wantExt) {
 				c.Violation(prop+"/layout-ext/extension-claims-changed/"+layout+"/"+format, fmt.Sprintf("the extension's own claims changed in the round trip: want %v, got %v", wantExt, gotExt), map[string]any{"sig": sig, "encoding": mon.Hex(e1)})
 				return
+			}
+			// wire form (seeded fault C10-u: an absent optional extension claim emitted
+			// as null because its tag lists omitempty before keyasint): one definite map /
+			// one object, no duplicate keys, no null for an absent claim
+			if format == "cbor" {
+				root, perr := refcbor.DecodeAll(e1)
+				switch {
+				case perr != nil || root.K != refcbor.Map || root.Indef:
+					c.Violation(prop+"/layout-ext/wire/not-a-definite-map/"+layout, "emitted CBOR is not a single definite map", map[string]any{"sig": sig, "encoding": mon.Hex(e1)})
+					return
+				default:
+					seen := map[string]bool{}
+					for i := 0; i+1 < len(root.Items); i += 2 {
+						k := root.Items[i].Diag()
+						if seen[k] {
+							c.Violation(prop+"/layout-ext/wire/duplicate-key/"+layout, "emitted CBOR repeats key "+k, map[string]any{"sig": sig, "encoding": mon.Hex(e1)})
+							return
+						}
+						seen[k] = true
+						if v := root.Items[i+1]; v.IsNull() || v.IsUndef() {
+							c.Violation(prop+"/layout-ext/wire/null-for-absent/"+layout, "emitted CBOR carries null under key "+k+" (absent optional claims are omitted)", map[string]any{"sig": sig, "encoding": mon.Hex(e1)})
+							return
+						}
+					}
+				}
+			} else {
+				var m map[string]json.RawMessage
+				if json.Unmarshal(e1, &m) != nil {
+					c.Violation(prop+"/layout-ext/wire/not-an-object/"+layout, "emitted JSON is not an object", map[string]any{"sig": sig, "encoding": string(e1)})
+					return
+				}
+				for k, v := range m {
+					if string(v) == "null" {
+						c.Violation(prop+"/layout-ext/wire/null-for-absent/"+layout+"/json", "emitted JSON carries null under "+k, map[string]any{"sig": sig, "encoding": string(e1)})
+						return
+					}
+				}
 			}
 			e2, err := enc(y)
 			if err != nil || !bytes.Equal(e1, e2) {
